@@ -54,6 +54,8 @@ def run(rep):
             u = [rnd.choice(alphabet) for _ in range(n)]
             npos = max([i for (mm, i) in pool if mm == m] + [-1]) + 1
             k = rnd.randint(0, npos)
+            if m == "[]":
+                k = 1               # the index accessor always has its key
             args = [rnd.choice(list(pool[(m, i)].values())) for i in range(k)]
             if m == "repeat":
                 continue        # counts from the grid reach 2^31: only the enumerated (Supported) repeat cases are run
